@@ -184,7 +184,8 @@ def stepPlans (p : Probes) (h : Host) (op : Op) : Option (Host × String) :=
     | .error e => some (h, s!"X err={errName e}")
     | .ok out =>
       let pairs := out.2.map (fun r => (r, some r))
-      let S1 := updateAllR l possibleTypes 0 (Gen.Cache.purge_updates_now now) pairs { hostR h with cache := out.1 }
+      -- the harness's clock ticks per reading during this op: the cleanup took reading 0
+      let S1 := updateAllR l possibleTypes 0 (Gen.Cache.purge_updates_now now) pairs { hostR h with cache := out.1, tick := some 1 }
       let S2 := completeAllR l possibleTypes detaches fuel 0 now S1
       let h' : Host := { cache := S2.cache, listeners := h.listeners, browsers := S2.browsers, plans := S2.plans }
       match S2.err with
